@@ -116,7 +116,17 @@ pub fn relation_class(rows: usize, cpu: Cpu) -> &'static [&'static str] {
 /// Run `calls` consecutive calls of one threaded operation inside one
 /// scheduled execution.
 pub fn exec_top(op: &TOp, conf: &Conf, calls: usize) -> ExecReport<Vec<OpResult>> {
-    let prep = Arc::new(op.prepare());
+    // building the operands uses the (sequential) mutation API: a panic there is reported, not propagated
+    let prep = match crate::reps::guard(|| op.prepare()) {
+        Ok(p) => Arc::new(p),
+        Err(m) => {
+            return ExecReport {
+                value: None,
+                failure: Some(Failure::Panic(format!("building the operands through the public API panicked: {m}"))),
+                log: crate::sched::ExecLog::default(),
+            }
+        }
+    };
     let op2 = op.clone();
     run_exec(conf, move || (0..calls).map(|_| op2.execute(&prep)).collect::<Vec<_>>())
 }
